@@ -196,14 +196,36 @@ Proof. unfold lin_max. lia. Qed.
 Lemma min_duration_ge2 a : (2 <= min_duration a)%Z.
 Proof. unfold min_duration. pose proof eta_min_dur_ge2. lia. Qed.
 
+(* the rescan after the binary search (repair 7df2246) *)
+Definition rescan_start (a : etaArgs) : Z := Z.max (lin_max a + 1) (shortest_conceivable a).
+
+Lemma rescan_spec a d c : find_solution a d = Some c ->
+  find_solution a (fst (rescan a (d, c))) = Some (snd (rescan a (d, c))) /\
+  (fst (rescan a (d, c)) <= d)%Z /\
+  (fst (rescan a (d, c)) = d \/ (rescan_start a <= fst (rescan a (d, c)))%Z) /\
+  (forall x, (rescan_start a <= x < fst (rescan a (d, c)))%Z -> find_solution a x = None).
+Proof.
+  intro Hf. pose proof (find_solution_Some _ _ _ Hf) as [p [_ [Hc _]]].
+  assert (Hsum : (c_up c + c_flat c + c_down c = d)%Z).
+  { rewrite Hc. unfold eval_cand. cbn [c_up c_flat c_down]. lia. }
+  unfold rescan. cbn [snd]. rewrite Hsum. fold (rescan_start a).
+  destruct (linear_search a (rescan_start a) (Z.to_nat (d - rescan_start a))) as [[d' c']|] eqn:L.
+  - apply linear_search_Some in L. destruct L as [L1 [L2 L3]]. cbn [fst snd].
+    assert (rescan_start a < d)%Z by lia. rewrite Z2Nat.id in L1 by lia.
+    repeat split; [exact L2|lia|right; lia|exact L3].
+  - cbn [fst snd]. pose proof (linear_search_None _ _ _ L) as LN.
+    repeat split; [exact Hf|lia|left; reflexivity|].
+    intros x Hx. apply LN. rewrite Z2Nat.id by lia. lia.
+Qed.
+
 (* what the whole search returns: a duration with a solution, at or above the lower bound, and
    - linear phase: nothing below it within the range,
-   - binary phase: nothing in the whole linear range, and nothing at the predecessor *)
+   - otherwise: nothing in the whole linear range, and nothing from the rescan start up to the result *)
 Lemma search_OK fd fb a d c : search fd fb a = OK (d, c) ->
   find_solution a d = Some c /\ (min_duration a <= d)%Z /\
   ( ((d <= lin_max a)%Z /\ forall d', (min_duration a <= d' < d)%Z -> find_solution a d' = None)
     \/ ((lin_max a < d)%Z /\ (forall d', (min_duration a <= d' <= lin_max a)%Z -> find_solution a d' = None)
-        /\ find_solution a (d - 1) = None) ).
+        /\ (forall x, (rescan_start a <= x < d)%Z -> find_solution a x = None)) ).
 Proof.
   unfold search. pose proof (min_le_lin_max a) as Hmm. pose proof (min_duration_ge2 a) as Hm2.
   destruct (linear_search a (min_duration a) (Z.to_nat (lin_max a - min_duration a + 1))) as [[d0 c0]|] eqn:L.
@@ -212,11 +234,15 @@ Proof.
     repeat split; [exact L2|lia|left; split; [lia|exact L3]].
   - pose proof (linear_search_None _ _ _ L) as LN. rewrite Z2Nat.id in LN by lia.
     destruct (doubling a (lin_max a) fd) as [hi|] eqn:Dd; [|discriminate].
-    intro H.
     assert (Hlm : find_solution a (lin_max a) = None) by (apply LN; lia).
     apply doubling_Some in Dd; [|lia|exact Hlm]. destruct Dd as [[D1 D2] [D3 D4]].
-    apply bsearch_OK in H; [|lia|exact D4]. destruct H as [B1 [B2 B3]].
-    repeat split; [exact B2|lia|right; repeat split; [lia| |exact B3]].
+    destruct (bsearch a (hi / 2) hi fb) as [[db cb]|e] eqn:B; [|discriminate].
+    apply bsearch_OK in B; [|lia|exact D4]. destruct B as [B1 [B2 B3]].
+    intro H. pose proof (rescan_spec a db cb B2) as [R1 [R2 [R3 R4]]].
+    inversion H as [Hdc]. rewrite Hdc in R1, R2, R3, R4. cbn [fst snd] in *.
+    assert (Hgt : (lin_max a < d)%Z).
+    { destruct R3 as [->|R3]; [lia|]. unfold rescan_start in R3. lia. }
+    repeat split; [exact R1|lia|right; repeat split; [exact Hgt| |exact R4]].
     intros d' Hd'. apply LN. lia.
 Qed.
 
@@ -629,15 +655,15 @@ Qed.
 (* ------------------------------------------------------------------------------------------ *)
 (* minimality                                                                                  *)
 
-(* the assumption behind the binary search (comment at lines 170-172 of the source): beyond the
-   ramp-to-zero duration, once a duration has a solution every longer duration has one *)
-Definition Monotone_feasible_from (a : etaArgs) (M : Z) : Prop :=
-  forall d d', (M <= d <= d')%Z -> find_solution a d <> None -> find_solution a d' <> None.
-
 (* no two-ramp gradient (raster corner times, same end points, exact area, plateau amplitude within
    99 percent of max_grad and both slopes within 99 percent of max_slew) with fewer than D rasters *)
 Definition no_shorter_two_ramp (a : etaArgs) (D : Z) : Prop :=
   forall ru rd ga, (ru + rd < D)%Z -> ~ two_ramp a (mgrad a) (mslew a) (mslew a) ru rd ga.
+
+(* the same with the tolerances of the code's filter, from the lower bound of the search upwards *)
+Definition no_shorter_two_ramp_tol (a : etaArgs) (D : Z) : Prop :=
+  forall ru rd ga, (min_duration a <= ru + rd < D)%Z ->
+    ~ two_ramp a (mgrad a + eta_amp_tol) (mslew a + eta_slew1_tol) (mslew a + eta_slew2_tol) ru rd ga.
 
 Lemma mslew_pos a : 0 < s_max_slew (e_sys a) -> 0 < mslew a.
 Proof. intro H. unfold mslew. apply Qmult_lt_0_compat; [exact H|exact eta_slew_factor_pos]. Qed.
@@ -651,67 +677,145 @@ Proof.
   exact (find_solution_complete_strict a (ru + rd) HR HN' ru rd ga eq_refl HT).
 Qed.
 
+Lemma none_below_no_shorter_tol a D : 0 < rast a ->
+  (forall d', (min_duration a <= d' < D)%Z -> find_solution a d' = None) -> no_shorter_two_ramp_tol a D.
+Proof.
+  intros HR HN ru rd ga Hlt HT.
+  assert (HN' : find_solution a (ru + rd) = None) by (apply HN; lia).
+  exact (find_solution_complete_two_ramp_lem a (ru + rd) HR HN' ru rd ga eq_refl HT).
+Qed.
+
+(* ---- the area bound behind `shortest_conceivable`: a candidate the filter accepts cannot enclose more
+   than duration * raster * (max_grad + tol), provided the end points are within that bound too ---- *)
+Lemma scale_bound U x H : 0 <= U -> - H <= x -> x <= H -> - (U * H) <= U * x /\ U * x <= U * H.
+Proof.
+  intros HU H1 H2. split.
+  - setoid_replace (- (U * H)) with (- H * U) by ring. rewrite (Qmult_comm U x).
+    apply Qmult_le_compat_r; assumption.
+  - rewrite (Qmult_comm U x), (Qmult_comm U H). apply Qmult_le_compat_r; assumption.
+Qed.
+
+Lemma eta_amp_tol_le_sc_tol : eta_amp_tol <= eta_sc_tol.
+Proof. discriminate. Qed.
+
+Lemma feasible_area_bound a d c G : 0 < rast a -> find_solution a d = Some c ->
+  Qabs (e_gs a) <= G -> Qabs (e_ge a) <= G -> mgrad a + eta_amp_tol <= G ->
+  Qabs (e_area a) <= inject_Z d * rast a * G.
+Proof.
+  intros HR Hf Hgs Hge HG.
+  pose proof (find_solution_Some _ _ _ Hf) as [p [_ [Hc [Hv [Hu [Hd Hsum]]]]]].
+  rewrite Hc in Hv. apply valid_within in Hv; [|exact HR|exact Hu|exact Hd].
+  destruct Hv as [Hga _]. rewrite eval_cand_amp in Hga.
+  pose proof (amp_area a d (fst p) (snd p) HR Hu Hd Hsum) as AA.
+  set (ga := amp_of a d (fst p) (snd p)) in *. unfold poly_area2 in AA.
+  set (fl := (d - fst p - snd p)%Z) in *.
+  assert (Hfl : (0 <= fl)%Z) by (unfold fl; lia).
+  assert (Ed : inject_Z d == inject_Z (fst p) + inject_Z fl + inject_Z (snd p)).
+  { rewrite <- !inject_Z_plus. unfold fl. apply inject_Z_injective. lia. }
+  pose proof (inject_Z_pos _ Hu) as Pu. pose proof (inject_Z_pos _ Hd) as Pd.
+  pose proof (inject_Z_nonneg _ Hfl) as Pf.
+  apply Qabs_Qle_condition in Hgs. apply Qabs_Qle_condition in Hge. apply Qabs_Qle_condition in Hga.
+  destruct Hgs as [Gs1 Gs2]. destruct Hge as [Ge1 Ge2]. destruct Hga as [Ga1 Ga2].
+  assert (U1 : 0 <= inject_Z (fst p) * rast a) by (apply Qmult_le_0_compat; lra).
+  assert (U2 : 0 <= inject_Z fl * rast a) by (apply Qmult_le_0_compat; lra).
+  assert (U3 : 0 <= inject_Z (snd p) * rast a) by (apply Qmult_le_0_compat; lra).
+  pose proof (scale_bound _ (ga + e_gs a) (G + G) U1 ltac:(lra) ltac:(lra)) as [B1 B1'].
+  pose proof (scale_bound _ (ga + ga) (G + G) U2 ltac:(lra) ltac:(lra)) as [B2 B2'].
+  pose proof (scale_bound _ (e_ge a + ga) (G + G) U3 ltac:(lra) ltac:(lra)) as [B3 B3'].
+  apply Qabs_Qle_condition. rewrite Ed. rewrite <- AA. split; lra.
+Qed.
+
+Lemma feasible_ge_shortest_conceivable a d c : 0 < rast a -> find_solution a d = Some c ->
+  Qabs (e_gs a) <= mgrad a + eta_amp_tol -> Qabs (e_ge a) <= mgrad a + eta_amp_tol ->
+  (shortest_conceivable a <= d)%Z.
+Proof.
+  intros HR Hf Hgs Hge. unfold shortest_conceivable.
+  pose proof eta_amp_tol_le_sc_tol as Htol.
+  pose proof (feasible_area_bound a d c (mgrad a + eta_sc_tol) HR Hf ltac:(lra) ltac:(lra) ltac:(lra)) as HB.
+  set (G := mgrad a + eta_sc_tol) in *.
+  assert (HG0 : 0 <= G).
+  { pose proof (Qabs_nonneg (e_gs a)). unfold G. lra. }
+  rewrite <- (Qfloor_Z d). apply Qfloor_resp_le.
+  destruct (Qlt_le_dec 0 G) as [HGpos|HGle].
+  - apply Qle_shift_div_r; [apply Qmult_lt_0_compat; assumption|].
+    setoid_replace (inject_Z d * (G * rast a)) with (inject_Z d * rast a * G) by ring. exact HB.
+  - assert (EG : G == 0) by lra.
+    assert (EA : Qabs (e_area a) == 0).
+    { pose proof (Qabs_nonneg (e_area a)). rewrite EG in HB. lra. }
+    rewrite EA. unfold Qdiv. rewrite Qmult_0_l.
+    pose proof (find_solution_Some _ _ _ Hf) as [p [_ [_ [_ [Hu [Hd Hsum]]]]]].
+    change 0 with (inject_Z 0). rewrite <- Zle_Qle. lia.
+Qed.
+
+(* ---- what the search guarantees about every shorter duration ---- *)
 Lemma eta_search_facts fd fb a o : eta fd fb a = OK o ->
-  0 < rast a /\
+  0 < rast a /\ find_solution a (o_dur o) = Some (o_cand o) /\ (min_duration a <= o_dur o)%Z /\
   ( ((o_dur o <= lin_max a)%Z /\ forall d', (min_duration a <= d' < o_dur o)%Z -> find_solution a d' = None)
     \/ ((lin_max a < o_dur o)%Z /\
-        (forall d', (min_duration a <= d' <= lin_max a)%Z -> find_solution a d' = None)
-        /\ find_solution a (o_dur o - 1) = None) ) /\ (min_duration a <= o_dur o)%Z.
+        (forall d', (min_duration a <= d' <= lin_max a)%Z -> find_solution a d' = None) /\
+        (forall x, (rescan_start a <= x < o_dur o)%Z -> find_solution a x = None)) ).
 Proof.
   intro H. pose proof (eta_shape _ _ _ _ H) as S. cbv zeta in S. destruct S as [HR _].
-  apply eta_OK in H. destruct H as [HS _]. apply search_OK in HS. destruct HS as [_ [Hm Hd]].
+  apply eta_OK in H. destruct H as [HS _]. apply search_OK in HS. destruct HS as [Hf [Hm Hd]].
   repeat split; assumption.
+Qed.
+
+(* UNCONDITIONAL (both phases): the returned duration is the least duration >= min_duration for which
+   _find_solution succeeds — for end points within the 99 percent limit (+ the filter tolerance) *)
+Lemma eta_smallest_feasible_lem fd fb a o : eta fd fb a = OK o ->
+  Qabs (e_gs a) <= mgrad a + eta_amp_tol -> Qabs (e_ge a) <= mgrad a + eta_amp_tol ->
+  find_solution a (o_dur o) <> None /\ (min_duration a <= o_dur o)%Z /\
+  forall d', (min_duration a <= d' < o_dur o)%Z -> find_solution a d' = None.
+Proof.
+  intros H Hgs Hge. apply eta_search_facts in H. destruct H as [HR [Hf [Hm Hd]]].
+  repeat split; [congruence|exact Hm|].
+  destruct Hd as [[_ HN]|[Hgt [HL HRs]]]; [exact HN|].
+  intros d' Hd'.
+  destruct (Z_le_gt_dec d' (lin_max a)) as [Hl|Hg]; [apply HL; lia|].
+  destruct (Z_lt_le_dec d' (shortest_conceivable a)) as [Hlt|Hge'].
+  - destruct (find_solution a d') eqn:E; [|reflexivity]. exfalso.
+    pose proof (feasible_ge_shortest_conceivable a d' c HR E Hgs Hge). lia.
+  - apply HRs. unfold rescan_start. lia.
+Qed.
+
+(* the linear phase needs no hypothesis on the end points *)
+Lemma eta_linear_smallest_feasible_lem fd fb a o : eta fd fb a = OK o -> (o_dur o <= lin_max a)%Z ->
+  find_solution a (o_dur o) <> None /\ (min_duration a <= o_dur o)%Z /\
+  forall d', (min_duration a <= d' < o_dur o)%Z -> find_solution a d' = None.
+Proof.
+  intros H Hle. apply eta_search_facts in H. destruct H as [_ [Hf [Hm [[_ HN]|[Hgt _]]]]]; [|lia].
+  repeat split; [congruence|exact Hm|exact HN].
+Qed.
+
+Lemma eta_minimal_lem fd fb a o : eta fd fb a = OK o -> 0 < s_max_slew (e_sys a) ->
+  Qabs (e_gs a) <= mgrad a + eta_amp_tol -> Qabs (e_ge a) <= mgrad a + eta_amp_tol ->
+  no_shorter_two_ramp a (o_dur o) /\ no_shorter_two_ramp_tol a (o_dur o).
+Proof.
+  intros H HMS Hgs Hge. pose proof (eta_smallest_feasible_lem _ _ _ _ H Hgs Hge) as [_ [_ HN]].
+  apply eta_search_facts in H. destruct H as [HR _].
+  split; [apply none_below_no_shorter; [exact HR|apply mslew_pos; exact HMS|exact HN]
+         |apply none_below_no_shorter_tol; [exact HR|exact HN]].
 Qed.
 
 Lemma eta_minimal_linear_range_lem fd fb a o : eta fd fb a = OK o -> 0 < s_max_slew (e_sys a) ->
   (o_dur o <= lin_max a)%Z -> no_shorter_two_ramp a (o_dur o).
 Proof.
-  intros H HMS Hle. apply eta_search_facts in H. destruct H as [HR [[[_ HN]|[Hgt _]] _]]; [|lia].
+  intros H HMS Hle. pose proof (eta_linear_smallest_feasible_lem _ _ _ _ H Hle) as [_ [_ HN]].
+  apply eta_search_facts in H. destruct H as [HR _].
   apply none_below_no_shorter; [exact HR|apply mslew_pos; exact HMS|exact HN].
 Qed.
 
-Lemma eta_minimal_partial_lem fd fb a o : eta fd fb a = OK o -> 0 < s_max_slew (e_sys a) ->
-  Monotone_feasible_from a (lin_max a) -> no_shorter_two_ramp a (o_dur o).
-Proof.
-  intros H HMS Mono. apply eta_search_facts in H. destruct H as [HR [[[_ HN]|[Hgt [HL HP]]] _]].
-  - apply none_below_no_shorter; [exact HR|apply mslew_pos; exact HMS|exact HN].
-  - apply none_below_no_shorter; [exact HR|apply mslew_pos; exact HMS|].
-    intros d' Hd'. destruct (Z_le_gt_dec d' (lin_max a)) as [Hl|Hg]; [apply HL; lia|].
-    destruct (find_solution a d') eqn:E; [|reflexivity]. exfalso.
-    apply (Mono d' (o_dur o - 1)%Z); [lia|congruence|exact HP].
-Qed.
+(* boolean reflection of [two_ramp] for closed witnesses *)
+Definition two_ramp_b (a : etaArgs) (lg ls1 ls2 : Q) (ru rd : Z) (ga : Q) : bool :=
+  (0 <? ru)%Z && (0 <? rd)%Z &&
+  Qeq_bool ((1 # 2) * poly_area2 (rast a) (e_gs a) (e_ge a) ga ru 0 rd) (e_area a) &&
+  Qleb (Qabs ga) lg &&
+  Qleb (Qabs (e_gs a - ga)) (ls1 * (inject_Z ru * rast a)) &&
+  Qleb (Qabs (e_ge a - ga)) (ls2 * (inject_Z rd * rast a)).
 
-(* unconditional: the duration just below the returned one never has a solution *)
-Lemma eta_prev_infeasible_lem fd fb a o : eta fd fb a = OK o -> 0 < s_max_slew (e_sys a) ->
-  forall ru rd ga, (ru + rd = o_dur o - 1)%Z -> ~ two_ramp a (mgrad a) (mslew a) (mslew a) ru rd ga.
+Lemma two_ramp_b_sound a lg ls1 ls2 ru rd ga :
+  two_ramp_b a lg ls1 ls2 ru rd ga = true -> two_ramp a lg ls1 ls2 ru rd ga.
 Proof.
-  intros H HMS ru rd ga Hs HT. apply eta_search_facts in H. destruct H as [HR [Hd Hm]].
-  pose proof (two_ramp_min_duration a ru rd ga _ HR (mslew_pos _ HMS) HT) as Hmin.
-  assert (HN : find_solution a (ru + rd) = None).
-  { destruct Hd as [[_ HN]|[_ [_ HP]]]; [apply HN; lia|rewrite Hs; exact HP]. }
-  exact (find_solution_complete_strict a (ru + rd) HR HN ru rd ga eq_refl HT).
-Qed.
-
-(* the search-level statements behind the two minimality theorems *)
-Lemma eta_linear_smallest_feasible_lem fd fb a o : eta fd fb a = OK o -> (o_dur o <= lin_max a)%Z ->
-  find_solution a (o_dur o) <> None /\ (min_duration a <= o_dur o)%Z /\
-  forall d', (min_duration a <= d' < o_dur o)%Z -> find_solution a d' = None.
-Proof.
-  intros H Hle. pose proof (eta_shape _ _ _ _ H) as S. cbv zeta in S. destruct S as [_ [Hf _]].
-  apply eta_search_facts in H. destruct H as [_ [[[_ HN]|[Hgt _]] Hm]]; [|lia].
-  repeat split; [congruence|exact Hm|exact HN].
-Qed.
-
-Lemma eta_binary_smallest_feasible_lem fd fb a o : eta fd fb a = OK o ->
-  Monotone_feasible_from a (lin_max a) ->
-  find_solution a (o_dur o) <> None /\
-  forall d', (min_duration a <= d' < o_dur o)%Z -> find_solution a d' = None.
-Proof.
-  intros H Mono. pose proof (eta_shape _ _ _ _ H) as S. cbv zeta in S. destruct S as [_ [Hf _]].
-  apply eta_search_facts in H. destruct H as [_ [[[_ HN]|[Hgt [HL HP]]] _]].
-  - split; [congruence|exact HN].
-  - split; [congruence|]. intros d' Hd'.
-    destruct (Z_le_gt_dec d' (lin_max a)) as [Hl|Hg]; [apply HL; lia|].
-    destruct (find_solution a d') eqn:E; [|reflexivity]. exfalso.
-    apply (Mono d' (o_dur o - 1)%Z); [lia|congruence|exact HP].
+  unfold two_ramp_b, two_ramp, within. rewrite !andb_true_iff, !Qleb_le, !Z.ltb_lt.
+  intros [[[[[H1 H2] H3] H4] H5] H6]. apply Qeq_bool_iff in H3. repeat split; assumption.
 Qed.
